@@ -538,3 +538,79 @@ def rule_field_const(repo, col):
     col.check(n >= 1, rule, TABLE, 'Table.__init__', 'instances', None,
               '%d stores to format_version' % n,
               'no store to format_version found')
+
+
+# ---------------------------------------------------------------------------
+RULE_TEXT['TA-NUMTRUTH'] = (
+    'A parameter that carries a number (numeric default, documented int / '
+    'float, or compared with a number in the same function) is never used '
+    'as a truth value: 0 is a legitimate value (seed 0, n 0, position 0).')
+
+
+def _numeric_params(fn):
+    import re
+    ps = [a.arg for a in fn.args.args + fn.args.kwonlyargs]
+    nd = len(fn.args.args) - len(fn.args.defaults)
+    num = set()
+    for i, a in enumerate(fn.args.args):
+        if i >= nd:
+            d = fn.args.defaults[i - nd]
+            if isinstance(d, ast.Constant) and isinstance(
+                    d.value, (int, float)) and not isinstance(d.value, bool):
+                num.add(a.arg)
+    doc = ast.get_docstring(fn) or ''
+    for p in ps:
+        if re.search(r'^\s*%s\s*:\s*(int|float|number)\b' % re.escape(p),
+                     doc, re.M):
+            num.add(p)
+    for n in ast.walk(fn):
+        if isinstance(n, ast.Compare) and len(n.ops) == 1 and isinstance(
+                n.ops[0], (ast.Lt, ast.LtE, ast.Gt, ast.GtE)):
+            for a, b in ((n.left, n.comparators[0]),
+                         (n.comparators[0], n.left)):
+                if isinstance(a, ast.Name) and a.id in ps and isinstance(
+                        b, ast.Constant) and isinstance(
+                        b.value, (int, float)) and not isinstance(
+                        b.value, bool):
+                    num.add(a.id)
+    return num
+
+
+def rule_numeric_truth(repo, col, roots=()):
+    rule = 'TA-NUMTRUTH'
+    fns = closure(repo, roots)
+    n_params = 0
+    for (rel, q), fn in sorted(fns.items()):
+        if isinstance(fn, ast.Lambda):
+            continue
+        num = _numeric_params(fn)
+        # a parameter re-bound in the body is no longer the caller's number
+        rebound = {t.id for n in body_walk(fn) if isinstance(n, ast.Assign)
+                   for t in n.targets if isinstance(t, ast.Name)}
+        num -= rebound
+        n_params += len(num)
+        if not num:
+            continue
+        bad = []
+        for n in body_walk(fn):
+            tests = []
+            if isinstance(n, (ast.If, ast.While, ast.IfExp)):
+                tests.append(n.test)
+            if isinstance(n, ast.BoolOp):
+                tests += n.values
+            if isinstance(n, ast.UnaryOp) and isinstance(n.op, ast.Not):
+                tests.append(n.operand)
+            for t in tests:
+                if isinstance(t, ast.Name) and t.id in num:
+                    bad.append(t)
+        for p in sorted(num):
+            mine = [b for b in bad if b.id == p]
+            col.check(not mine, rule, rel, q, 'truth:%s' % p,
+                      mine[0] if mine else fn,
+                      'the number is only compared, never tested for truth',
+                      '`%s` is a number and is used as a truth value: the '
+                      'legitimate value 0 takes the branch meant for '
+                      '"not given"' % p)
+    col.ok(rule, roots[0][0] if roots else TABLE, '<scope>', 'scan', None,
+           '%d functions scanned, %d numeric parameters' % (len(fns),
+                                                           n_params))
